@@ -68,11 +68,11 @@ func runC13(c *Ctx) {
 
 	// locate the attempt: the function (literal) of package task that starts the body goroutine
 	type attempt struct {
-		f    *ssa.Function
-		g    *ssa.Go
-		lit  *ssa.Function
-		body ssa.CallInstruction
-		done ssa.Value // cell root of the channel closed after the body
+		f      *ssa.Function
+		g      *ssa.Go
+		lit    *ssa.Function
+		body   ssa.CallInstruction
+		done   ssa.Value // cell root of the channel closed after the body
 		isDone func(ssa.Value) bool
 	}
 	var attempts []attempt
